@@ -60,27 +60,37 @@ func VerifC06() {
 			l.e.Exit()
 			if !l.exited {
 				l.exited = true
-				live[l.res][l.v]--
+				if l.v != 2 {
+					live[l.res][l.v]--
+				}
 			}
 			rt.Reach("c06.exit")
 		} else {
-			r, v := rt.Choice(2), rt.Choice(2)
+			r, v := rt.Choice(2), rt.Choice(2+rt.Param("NOARGS"))
 			var e *base.SentinelEntry
 			var blk *base.BlockError
-			if r == 0 {
+			if v == 2 { // an entry without arguments: no rule selects a value, it is admitted and counted nowhere
+				e, blk = Entry(names[r], WithSlotChain(sc))
+				rt.Assert(e != nil && blk == nil, "an entry without arguments is not subject to parameter rules (also on a recycled context)")
+				if e != nil {
+					es = append(es, &verifLive6{e: e, res: r, v: 2, exited: false})
+				}
+			} else if r == 0 {
 				e, blk = Entry(names[r], WithSlotChain(sc), WithArgs(vals[v], "other"))
 			} else {
 				e, blk = Entry(names[r], WithSlotChain(sc), WithArgs("other", vals[v])) // G selects the last argument
 			}
 			rt.Reach("c06.entry")
-			want := live[r][v] < thrOf(r, v)
-			rt.AssertExcept((e != nil) == want, "admitted iff the entries in flight for the value are fewer than its threshold", "D18", thrOf(r, v) == 0)
-			if blk != nil {
-				rt.Assert(blk.BlockType() == base.BlockTypeHotSpotParamFlow, "rejected with a hotspot block")
-			}
-			if e != nil {
-				es = append(es, &verifLive6{e: e, res: r, v: v})
-				live[r][v]++
+			if v != 2 {
+				want := live[r][v] < thrOf(r, v)
+				rt.AssertExcept((e != nil) == want, "admitted iff the entries in flight for the value are fewer than its threshold", "D18", thrOf(r, v) == 0)
+				if blk != nil {
+					rt.Assert(blk.BlockType() == base.BlockTypeHotSpotParamFlow, "rejected with a hotspot block")
+				}
+				if e != nil {
+					es = append(es, &verifLive6{e: e, res: r, v: v})
+					live[r][v]++
+				}
 			}
 		}
 		// per-value in-flight figure equals the live entries for the value
@@ -100,7 +110,9 @@ func VerifC06() {
 			}
 		}
 		for _, l := range es {
-			if !l.exited {
+			if !l.exited && l.v == 2 {
+				rt.Assert(len(l.e.Context().Input.Args) == 0, "a live entry without arguments has none")
+			} else if !l.exited {
 				args := l.e.Context().Input.Args
 				idx := 0
 				if l.res == 1 {
